@@ -211,6 +211,13 @@ class ProgGen:
                 n = r.range(1, 2)
                 mid = ''.join(' else if %s { %s }' % (self.gen_bool(ctx, depth - 2), self.gen_int(ctx, depth - 2)) for _ in range(n))
                 return '(if %s { %s }%s else { %s })' % (self.gen_bool(ctx, depth - 1), self.gen_int(ctx, depth - 1), mid, self.gen_int(ctx, depth - 1))
+            if r.chance(1, 4) and vs:
+                # a choice between a VARIABLE and the constant 0 / 1 with nothing to compute in either branch (the shapes
+                # that look like && / || on booleans but are not, on ints)
+                self.features.add('if-else-value-or-constant')
+                v = r.pick(vs)
+                return r.pick(['(if %s { %s } else { 0 })', '(if %s { 1 } else { %s })', '(if %s { 0 } else { %s })', '(if %s { %s } else { 1 })']) % (
+                    self.gen_bool(ctx, depth - 1), v)
             return '(if %s { %s } else { %s })' % (self.gen_bool(ctx, depth - 1), self.gen_int(ctx, depth - 1), self.gen_int(ctx, depth - 1))
         if k < 50 and self.funs:
             cands = [f for f in self.funs if f[2] == INT]
@@ -858,14 +865,28 @@ INFER_HELPERS = '''  function <T> pick(f: (int) -> Opt<T>, d: T): T = f(1).orEls
   function <R> mapSame(o: Opt<R>, f: (R) -> R): Opt<R> = o.map(f)
   function <R> mapOne(o: Opt<R>): Opt<int> = o.map((q) -> 1)
   function <R> mapBox(o: Opt<R>): Opt<Opt<R>> = o.map((q) -> Opt.Som(q))
+  function <R> mapNested(o: Opt<Opt<R>>): Opt<int> = o.map((q) -> 1)
+  function <R> mapNested2(o: Opt<Pr<R, int>>): Opt<int> = o.map((q) -> q.snd)
   function appNb(f: (Nb0) -> int): int = f(Nb0.init(2))
   function appSa(f: (Sa0) -> int): int = f(Sa0.init(2))
 '''
+
+INFER_TWIN_ANNOTATIONS = [
+    ('function <R> mapNested(o: Opt<Opt<R>>): Opt<int> = o.map((q) -> 1)', 'function <R> mapNested(o: Opt<Opt<R>>): Opt<int> = o.map((q: Opt<R>) -> 1)'),
+    ('function <R> mapNested2(o: Opt<Pr<R, int>>): Opt<int> = o.map((q) -> q.snd)', 'function <R> mapNested2(o: Opt<Pr<R, int>>): Opt<int> = o.map((q: Pr<R, int>) -> q.snd)'),
+    ('function <R> mapOne(o: Opt<R>): Opt<int> = o.map((q) -> 1)', 'function <R> mapOne(o: Opt<R>): Opt<int> = o.map((q: R) -> 1)'),
+    ('function <R> mapBox(o: Opt<R>): Opt<Opt<R>> = o.map((q) -> Opt.Som(q))', 'function <R> mapBox(o: Opt<R>): Opt<Opt<R>> = o.map<Opt<R>>((q: R) -> Opt.Som(q))'),
+]
 
 # bodies of type int whose acceptance depends on how much the checker infers from hints: lambdas whose body needs the
 # expected type (a generic constructor without type arguments, a nested un-annotated lambda), type arguments solved from a
 # lambda argument, from another argument, or from the return-type hint
 INFER_TEMPLATES = [
+    # the caller's type parameter nested inside another class type in the receiver's type arguments
+    'Main.mapNested(Opt.Som(Opt.Som(@k))).orElse(@j) + Main.mapNested2(Opt.Som(Pr.init("s", @k))).orElse(0)',
+    # if / else-if / else chains whose later branches need the type of the first (no expected type from outside)
+    '{ let @x = if @k > 3 { (@y: int) -> @y } else if @k > 1 { (@y) -> @y + 1 } else { (@y) -> @y + 2 }; @x(@j) }',
+    '{ let @x = if @k > 3 { Opt.Som(@k) } else if @k > 1 { Opt.Non() } else { Opt.Non() }; @x.orElse(@j) }',
     # methods that hand out `this`, taken as function values (the receiver is erased in the function's signature)
     '{ let @x = Me.init(@k).me; @x().a }',
     '{ let @x = Me.init(@k).pick; @x(true).a + @x(false).a }',
@@ -928,7 +949,13 @@ def gen_infer_program(rng, nfun=10):
         funs.append('  function t%d(): int = %s' % (i, body))
         prints.append('    Process.println(Str.fromInt(Main.t%d()));' % i)
     text = INFER_PRELUDE + 'class Main {\n' + INFER_HELPERS + '\n'.join(funs) + '\n  function main(): unit = {\n' + '\n'.join(prints) + '\n  }\n}\n'
-    return {'sources': {'Main': text}, 'entry': 'Main', 'features': ['inference']}
+    # the same program with lambda parameters annotated by the types they have BY CONSTRUCTION (an annotation taken from the
+    # checker's own inference cannot expose an inference that is wrong but consistent)
+    twin = text
+    for a, b in INFER_TWIN_ANNOTATIONS:
+        assert a in twin, a
+        twin = twin.replace(a, b)
+    return {'sources': {'Main': text}, 'entry': 'Main', 'features': ['inference'], 'annotated_twin': {'Main': twin}}
 
 
 ORDER_PRELUDE = '''class Bx(val v: int) {
